@@ -24,6 +24,7 @@ from vlib import log
 
 SPEC = vlib.SPEC
 DRIVER = "fut_driver"
+SPURIOUS = 25  # per-mille chance per scheduling decision that a blocked futex_wait returns spuriously / with EINTR (legal: the code must re-check)
 
 # (mode, count, prog) exercised on every run
 FIXED = [
@@ -119,6 +120,7 @@ def record(progs, seeds, strategy, out, jobs=None, extra=None):
         args = ["--scenario", "fut", "--params", params_of(mode, count, prog, pr[3] if len(pr) > 3 else 0), "--strategy", strategy, "--seeds", "%d:%d" % seeds, "--out", raw, "--max-steps", "20000", "--timeout-ms", "60000"]
         if strategy != "pb":
             args += ["-j", str(jobs or 8)]
+            args += ["--spurious", "0" if fc.has_huge(prog) else str(SPURIOUS)]   # (a spurious return may come any time into a wait: centuries for a huge one)
             if fc.has_huge(prog):
                 args += ["--time", "0"]   # timers fire only when nothing else can run: a huge timeout then never fires before set_value
         if extra:
@@ -187,6 +189,8 @@ def rerun(key):
         args += ["--strategy", "mix"]
     else:
         args += ["--strategy", st]
+    if st != "pb":
+        args += ["--spurious", "0" if fc.has_huge(p.get("prog", "")) else str(SPURIOUS)]
     if st != "pb" and fc.has_huge(p.get("prog", "")):
         args += ["--time", "0"]
     vlib.driver(DRIVER, args)
